@@ -200,7 +200,7 @@ func NewSched(t *Tape) *Sched {
 		T:         t,
 		rootGid:   goid(),
 		sig:       make(chan struct{}, 1),
-		MaxSteps:  4000,
+		MaxSteps:  scale(4000, 12000),
 		MaxVirt:   200 * time.Hour,
 		IdleLimit: 3 * time.Hour,
 		start:     time.Now(),
